@@ -21,11 +21,11 @@ RULE = ("all strings of length <= 4 (quick) / <= 5 (thorough) over the 15-charac
         "under neutral mnemonics and under API/UWI/api/Uwi, and in ~Curves; strings containing ':' use the NAME : VALUE "
         "form; plus random longer strings (identifiers like 15_9 and 12-34-12-34W5M, dates, times, inf, nan, hex, 1e400, "
         "19/20-digit integers, thousands separators). distinct = distinct (string, section kind, mnemonic kind); "
-        "non-trivial = string containing at least one digit" % ALPHABET)
+        "non-trivial = string containing at least one digit Added later: non-numeric values under the steering mnemonics, values equal / close to the file's own NULL for six NULLs, declared versions 1.2 / 2.1 / 3.0, twelve description texts (format words, braces, numbers), values with blank runs." % ALPHABET)
 ASSUMPTIONS = [
     "recogniser: definite literal = [+-]?digits([.,]digits)?([eE][+-]?digits)? ; grey zone (5. .5 5, ,5) only requires 'if converted then numerically equal' ; everything else must stay the verbatim string",
     "non-ASCII digits are outside the quantifier (ASCII strings) and only probed",
-    "LAS 2.0 layout (value before the colon)",
+    "the files declare VERS 1.2, 2.0, 2.1 or 3.0; in a 1.2 ~Well section the value lines are written in that version's layout (description before the colon)",
 ]
 EXHAUSTIVE = {"quick": "all 54 240 strings of length <= 4 over the alphabet", "thorough": "all 813 615 strings of length <= 5 over the alphabet"}
 REQUIRED = ["values_checked", "class_literal_int", "class_literal_float", "class_nonliteral", "class_grey", "api_uwi_values_checked",
